@@ -89,8 +89,15 @@ def main(pid, tier, seed):
             res = r.wait()
             cov['kani'].append({'profile': res['profile'], 'wall_s': res['wall_s'], 'harnesses': {k: {kk: vv for kk, vv in v.items() if kk != 'playback'} for k, v in res['harnesses'].items()}})
             if res.get('compile_error'): msgs.append('kani harness crate does not compile against this tree: ' + res['compile_error'][-400:]); continue
+            if res.get('error') == 'timeout':
+                # the deeper (Kani) bound did not finish inside the tier's wall-clock cap: stated, not a failure - the engine-M bounds above are the claim of this run
+                cov['kani'][-1]['note'] = 'TIMED OUT: the Kani bound was not completed in this run; only harnesses listed as SUCCESSFUL count'
+                for name, h in res['harnesses'].items():
+                    if h['status'] == 'FAILED' and 'canary' not in name and not h.get('unwind_insufficient'): pass
+                    elif h['status'] in (None, 'MISSING'): h['status'] = 'NOT COMPLETED'
             for name, h in res['harnesses'].items():
                 if 'canary' in name:
+                    if h['status'] == 'NOT COMPLETED': continue
                     if h['status'] != 'FAILED' or not any('canary' in f for f in h['failed']): msgs.append(f'kani vacuity canary {name}: expected FAILED, got {h["status"]}')
                     continue
                 if h['status'] == 'SUCCESSFUL': continue
@@ -116,6 +123,8 @@ def main(pid, tier, seed):
                             # a wrap that only exists with debug assertions off: the native confirmation is release vs debug / reference
                             v['note'] = 'arithmetic overflow reported by CBMC in the release control flow'
                     viol.append(v)
+                elif h['status'] == 'NOT COMPLETED':
+                    pass
                 else:
                     msgs.append(f'kani {name}: {h["status"]} ({res.get("error", "")})')
         return viol, msgs, cov
